@@ -37,7 +37,7 @@ Definition hkind_eqb (a b : hkind) : bool :=
   | _, _ => false
   end.
 Definition idk_eqb (a b : idk) : bool :=
-  match a, b with IKBind, IKBind | IKSession, IKSession | IKLegacy, IKLegacy => true | _, _ => false end.
+  match a, b with IKBind, IKBind | IKSession, IKSession | IKLegacy, IKLegacy | IKUser, IKUser => true | _, _ => false end.
 Definition tkind_eqb (a b : tkind) : bool :=
   match a, b with
   | TUser, TUser | TMissingFeatures, TMissingFeatures | TMissingFeaturesSasl, TMissingFeaturesSasl
@@ -541,10 +541,18 @@ Definition call_id_handler (k : idk) (now : Z) (e : elem) (s : state) : R :=
       | TyResult, NmIq => stream_negotiation_success s0
       | _, _ => ret (xmpp_disconnect now s0)
       end
+  | IKUser => (s, [OUserHandler])   (* the user's id handler (xmpp_id_handler_add); it returns 1 *)
   end.
 
+(* the id handlers of the library are one-shot (they return 0); the user's stays registered *)
+Definition is_user_id (k : idk) : bool := match k with IKUser => true | _ => false end.
+
 Definition idk_of (i : eid) : option idk :=
-  match i with IdBind => Some IKBind | IdSession => Some IKSession | IdAuth => Some IKLegacy | _ => None end.
+  match i with
+  | IdBind => Some IKBind | IdSession => Some IKSession | IdAuth => Some IKLegacy
+  | IdOther => Some IKUser   (* the id the user's id handler is registered for *)
+  | IdNone => None
+  end.
 
 Definition filter_match (k : hkind) (e : elem) : bool :=
   let '(fns, fname) := hfilter k in
@@ -590,7 +598,9 @@ Definition dispatch (now : Z) (e : elem) (s0 : state) : R :=
   let r1 : R :=
     match idk_of (e_id e) with
     | Some k => if id_has k s then
-                  let '(s1, o1) := call_id_handler k now e s in (id_del k s1, o1)
+                  (* user handlers are not fired until stream negotiation has completed *)
+                  if is_user_id k && negb (neg_done s) then ret s else
+                  let '(s1, o1) := call_id_handler k now e s in ((if is_user_id k then s1 else id_del k s1), o1)
                 else ret s
     | None => ret s
     end in
@@ -743,7 +753,8 @@ Definition conn_reset (s : state) : state :=
       let s3 := set_secured false (set_tls_failed false (set_err 0 (set_tls_support false s2))) in
       let s4 := set_sasl [] (set_comp_supported false (set_bind_required false (set_session_required false s3))) in
       let s5 := set_handlers (filter (fun x => hkind_eqb (fst x) HUser) (handlers s4)) s4 in
-      let s6 := set_idhandlers [] s5 in
+      (* handler_system_delete_all: the user's id handler survives *)
+      let s6 := set_idhandlers (filter (fun x => idk_eqb (fst x) IKUser) (idhandlers s5)) s5 in
       set_timed (filter (fun x => tkind_eqb (fst (fst x)) TUser) (timed s6)) s6
   | _ => s
   end.
@@ -907,7 +918,8 @@ Definition step0 (s : state) (o : op) : R :=
   | OpUserHandlers now h t =>
       match st s with
       | Disconnected =>
-          let s1 := if h then h_add HUser s else s in
+          (* the user program registers its stanza handler and its id handler together *)
+          let s1 := if h then id_add IKUser (h_add HUser s) else s in
           ret (set_user_timed t (set_user_handler h (match t with Some _ => timed_add TUser now s1 | None => s1 end)))
       | _ => ret s
       end
